@@ -132,21 +132,64 @@ func zzScopeShadowing(exact bool) {
 	zz.Assume(outer[0] >= 'a' && outer[0] <= 'z')
 	zz.Assume(inner[0] >= 'a' && inner[0] <= 'z')
 	ko := zz.Choice("outer-kind", zzKinds)
-	ki := zz.Choice("inner-kind", zzKinds)
-	depth := zz.Choice("extra-nesting", 2) // the inner declaration sits 1 or 2 scopes deep
-	zz.Cell(zzKindName(ko) + "-shadowed-by-" + zzKindName(ki))
+	ki := zz.Choice("inner-kind", zzKinds+1) // zzKinds: `const <outer> = <outer> + 1;` (refers to the outer binding)
+	depth := zz.Choice("extra-nesting", 2)   // the inner declaration sits 1 or 2 scopes deep
+	outerIsConst := ko == zzKindConstAbstract || ko == zzKindConstTyped
+	// a const that depends on the outer name, declared right after it (const kinds only)
+	dependent := outerIsConst && zz.Flag("dependent-const")
+	selfRef := ki == zzKinds
+	if selfRef {
+		zz.Assume(outerIsConst)
+		inner = outer
+	}
+	innerName := "self-referencing-const"
+	if !selfRef {
+		innerName = zzKindName(ki)
+	}
+	cell := zzKindName(ko) + "-shadowed-by-" + innerName
+	if dependent {
+		cell += "-with-dependent-const"
+	}
+	zz.Cell(cell)
+	zz.Bounded(40_000_000, 250, "lowering of a shadowing declaration does not terminate (stack overflow in Lower)")
 
 	oc, op, err := l.zzDeclare(ko, outer, "11", 11, "zbase1", 0, &body)
 	zz.Assert(err == nil, "valid outer declaration rejected")
 	c, p, err := l.zzUse(outer, &body)
 	zz.Assert(err == nil && c == oc && p == op, "use after declaration does not resolve to the declaration")
+	if dependent {
+		dep := &parser.ConstDecl{Name: "zdep", IsConst: true, Init: &parser.BinaryExpr{Left: &parser.Ident{Name: outer}, Op: parser.TokenPlus, Right: zzIntLitExpr("1")}}
+		zz.Assert(l.lowerStatement(dep, &body) == nil, "valid dependent const rejected")
+	}
+	checkDep := func(where string, target *[]ir.Statement) {
+		if !dependent {
+			return
+		}
+		c, p, err := l.zzUse("zdep", target)
+		zz.Assert(err == nil, "use of the dependent const rejected "+where)
+		if err == nil {
+			zz.Assert(c == zzUseLit, "the dependent const is no longer a constant value "+where+" (its initializer was re-resolved against a shadowing binding)")
+			if exact {
+				zz.Assert(c != zzUseLit || p == 12, "the dependent const changes its value "+where+" (its initializer was re-resolved against a shadowing binding)")
+			}
+		}
+	}
+	checkDep("before the inner scope", &body)
 
 	l.pushScope()
 	var blk []ir.Statement
 	if depth == 1 {
 		l.pushScope()
 	}
-	ic, ip, err := l.zzDeclare(ki, inner, "22", 22, "zbase2", 1, &blk)
+	var ic int
+	var ip int64
+	if selfRef {
+		ic, ip = zzUseLit, 12
+		self := &parser.ConstDecl{Name: inner, IsConst: true, Init: &parser.BinaryExpr{Left: &parser.Ident{Name: outer}, Op: parser.TokenPlus, Right: zzIntLitExpr("1")}}
+		err = l.lowerStatement(self, &blk)
+	} else {
+		ic, ip, err = l.zzDeclare(ki, inner, "22", 22, "zbase2", 1, &blk)
+	}
 	zz.Assert(err == nil, "valid inner declaration rejected")
 	c, p, err = l.zzUse(inner, &blk)
 	zz.Assert(err == nil, "use of the inner binding rejected")
@@ -156,6 +199,7 @@ func zzScopeShadowing(exact bool) {
 			zz.Assert(c != ic || p == ip, "inside the scope the name does not resolve to the inner binding")
 		}
 	}
+	checkDep("inside the inner scope", &blk)
 	if depth == 1 {
 		l.popScope()
 	}
@@ -169,5 +213,7 @@ func zzScopeShadowing(exact bool) {
 			zz.Assert(c != oc || p == op, "after the scope the name does not resolve to the outer binding again")
 		}
 	}
+	checkDep("after the inner scope", &body)
+	zz.Bounded(0, 0, "")
 	zz.Reach("end")
 }
